@@ -25,7 +25,9 @@ package netflow9
 import (
 	"bytes"
 	"encoding/hex"
+	"encoding/json"
 	"errors"
+	"math"
 	"net"
 	"strconv"
 )
@@ -177,13 +179,13 @@ func (m *Message) writeValue(b *bytes.Buffer, i, j int) error {
 	case int64:
 		b.WriteString(strconv.FormatInt(m.DataSets[i][j].Value.(int64), 10))
 	case float32:
-		b.WriteString(strconv.FormatFloat(float64(m.DataSets[i][j].Value.(float32)), 'E', -1, 32))
+		writeFloat(b, float64(m.DataSets[i][j].Value.(float32)), 32)
 	case float64:
-		b.WriteString(strconv.FormatFloat(m.DataSets[i][j].Value.(float64), 'E', -1, 64))
+		writeFloat(b, m.DataSets[i][j].Value.(float64), 64)
+	case bool:
+		b.WriteString(strconv.FormatBool(m.DataSets[i][j].Value.(bool)))
 	case string:
-		b.WriteByte('"')
-		b.WriteString(m.DataSets[i][j].Value.(string))
-		b.WriteByte('"')
+		writeString(b, m.DataSets[i][j].Value.(string))
 	case net.IP:
 		b.WriteByte('"')
 		b.WriteString(m.DataSets[i][j].Value.(net.IP).String())
@@ -201,4 +203,27 @@ func (m *Message) writeValue(b *bytes.Buffer, i, j int) error {
 	}
 
 	return nil
+}
+
+// writeFloat encodes a float; JSON has no literal for NaN and infinities,
+// they are encoded as strings.
+func writeFloat(b *bytes.Buffer, f float64, bitSize int) {
+	if math.IsNaN(f) || math.IsInf(f, 0) {
+		b.WriteByte('"')
+		b.WriteString(strconv.FormatFloat(f, 'g', -1, bitSize))
+		b.WriteByte('"')
+		return
+	}
+	b.WriteString(strconv.FormatFloat(f, 'E', -1, bitSize))
+}
+
+// writeString encodes a string with JSON escaping (quotes, backslashes,
+// control characters, invalid UTF-8).
+func writeString(b *bytes.Buffer, s string) {
+	enc, err := json.Marshal(s)
+	if err != nil {
+		b.WriteString(`""`)
+		return
+	}
+	b.Write(enc)
 }
